@@ -78,7 +78,8 @@ theorem clean_pq {c : Cfg} {tid : Tid} {alt : Bool} {t : PThread} {lbl : String}
     | false => rfl
     | true => have := allStopped_of_done hn hc hd' t hmem hp; rw [h] at this; cases this
   have hmA : t.q.pc ≠ .mAcq := by intro h; rw [h] at hkd; simp [pcKind] at hkd
-  have hretOf : retOf (postProd tid t q') = retOf t := by simp [retOf, pf3, hprog]
+  have hretOf : retsT (postProd tid t q') = retsT t := by
+    simp [retsT, retOf, pf3, hprog, (postProd_frame tid t q').2.2.2.2.2.2.2.2, postProd_more]
   -- pastStop after the step
   have hstopNew : t.q.pc ≠ .tAcq → pastStop q'.pc = pastStop t.q.pc := by
     intro hta
@@ -176,7 +177,7 @@ theorem clean_pq {c : Cfg} {tid : Tid} {alt : Bool} {t : PThread} {lbl : String}
     split
     · rename_i hta
       have hr := (ho.atStop hta).1
-      have h1 := flat_app (t' := postProd tid t q') retL [retOf t] ht
+      have h1 := flat_app (t' := postProd tid t q') retL (retsT t) ht
         (by (have e1 : pastStop Pc.tAcq = false := rfl); simp [retL, pf1, hp, pf6, f10 hta, hta, e1, hretOf])
       rw [hr]
       exact (hc.rets.append_right _).trans h1.symm
